@@ -1,6 +1,7 @@
 (* C15 - Relative name resolution follows protoc scoping.  Statements only; proofs are in
-   Proofs/Resolve.v.  go_resolve mirrors linker/resolve.go as it is; Spec.lookup is protoc's
-   LookupSymbolNoPlaceholder; go_resolve_fixed is the proposed repair (one scope per package prefix). *)
+   Proofs/Resolve.v.  go_resolve mirrors linker/resolve.go as it is (after the fix
+   fixes/C15-resolve-scope.diff); Spec.lookup is protoc's LookupSymbolNoPlaceholder;
+   go_resolve_old is the code before the fix. *)
 From Coq Require Import List NArith Bool.
 From PV Require Import Model.Resolve Model.ProtocLookup Proofs.Resolve.
 Import ListNotations.
@@ -11,6 +12,17 @@ Theorem C15_create_prefix_list_spec : forall cs, Forall (fun c => simple c = tru
   create_prefix_list (join_dots cs) = map join_dots (prefixes_desc cs).
 Proof. exact create_prefix_list_spec_lemma. Qed.
 Print Assumptions C15_create_prefix_list_spec.
+
+(* for every well-formed universe, every enclosing scope, every name (any byte string without two
+   leading dots) and both lookup modes the Go algorithm answers like protoc: the same element, or
+   both fail with the same kind of failure (nothing found / resolved to a name that is not
+   defined / not a type) *)
+Theorem C15_resolve_eq_protoc : forall U path elem nm m,
+  wf_universe U = true -> scope_ok U path elem = true -> double_dot nm = false ->
+  Spec.outcome_of m (Spec.to_spec U (go_resolve U path nm (Spec.only_types m)))
+  = Spec.outcome_of m (Spec.lookup U (relative_to U path elem) nm m).
+Proof. exact resolve_eq_protoc_lemma. Qed.
+Print Assumptions C15_resolve_eq_protoc.
 
 (* a leading dot bypasses scoping: the answer does not depend on the enclosing scopes or on the
    mode, and it is protoc's FindSymbol of the rest of the name *)
@@ -26,60 +38,35 @@ Theorem C15_lookup_total : forall U relative_to nm m, Spec.lookup U relative_to 
 Proof. exact lookup_total_lemma. Qed.
 Print Assumptions C15_lookup_total.
 
-(* the code as it is does NOT follow protoc: an unqualified type reference stops at a non-type
-   found at a package level of the file although an outer package level holds a type *)
-Theorem C15_resolve_eq_protoc_refuted :
+(* historical: the code before the fix did not follow protoc; an unqualified type reference stopped
+   at a non-type found at a package level of the file although an outer level holds a type *)
+Theorem C15_old_resolve_refuted :
   exists U path elem nm m,
     wf_universe U = true /\ scope_ok U path elem = true /\ double_dot nm = false /\
-    go_resolve U path nm (Spec.only_types m) = GDesc [97;46;98;46;120]%N KExtension /\
+    go_resolve_old U path nm (Spec.only_types m) = GDesc [97;46;98;46;120]%N KExtension /\
     Spec.lookup U (relative_to U path elem) nm m = Spec.SFound [97;46;120]%N (Spec.SK KMessage) /\
-    Spec.outcome_of m (Spec.to_spec U (go_resolve U path nm (Spec.only_types m)))
+    Spec.outcome_of m (Spec.to_spec U (go_resolve_old U path nm (Spec.only_types m)))
     <> Spec.outcome_of m (Spec.lookup U (relative_to U path elem) nm m).
 Proof. exact resolve_eq_protoc_refuted_lemma. Qed.
-Print Assumptions C15_resolve_eq_protoc_refuted.
-
-(* ... and it does follow protoc for every universe, scope, name and mode under the guard:
-   the lookup is not LOOKUP_TYPES, or the name is qualified, or no package level of the file
-   holds a non-type (element or sub-package) with that name *)
-Theorem C15_resolve_eq_protoc_partial : forall U path elem nm m,
-  wf_universe U = true -> scope_ok U path elem = true -> double_dot nm = false -> guard U nm m = true ->
-  Spec.outcome_of m (Spec.to_spec U (go_resolve U path nm (Spec.only_types m)))
-  = Spec.outcome_of m (Spec.lookup U (relative_to U path elem) nm m).
-Proof. exact resolve_eq_protoc_partial_lemma. Qed.
-Print Assumptions C15_resolve_eq_protoc_partial.
-
-(* the proposed repair follows protoc without the guard: same element, or both fail with the same
-   kind of failure (nothing found / resolved to a name that is not defined / not a type) *)
-Theorem C15_repaired_resolve_eq_protoc : forall U path elem nm m,
-  wf_universe U = true -> scope_ok U path elem = true -> double_dot nm = false ->
-  Spec.outcome_of m (Spec.to_spec U (go_resolve_fixed U path nm (Spec.only_types m)))
-  = Spec.outcome_of m (Spec.lookup U (relative_to U path elem) nm m).
-Proof. exact repaired_resolve_eq_protoc_lemma. Qed.
-Print Assumptions C15_repaired_resolve_eq_protoc.
-
-(* the same repair in the form of the proposed patch (a skipNonTypes flag handed to the scopes; the
-   file scope moves on to the next package level itself): identical answers, hence the same theorem *)
-Theorem C15_patched_resolve_eq_protoc : forall U path elem nm m,
-  wf_universe U = true -> scope_ok U path elem = true -> double_dot nm = false ->
-  Spec.outcome_of m (Spec.to_spec U (go_resolve_skip U path nm (Spec.only_types m)))
-  = Spec.outcome_of m (Spec.lookup U (relative_to U path elem) nm m).
-Proof. exact patched_resolve_eq_protoc_lemma. Qed.
-Print Assumptions C15_patched_resolve_eq_protoc.
+Print Assumptions C15_old_resolve_refuted.
 
 (* outside the grammar: a reference with two leading dots (descriptor input only) is resolved by
-   the Go code (two more dots are stripped on the way) and is unknown to protoc *)
+   the Go code (two more dots are stripped on the way) and is unknown to protoc; this is why
+   C15_resolve_eq_protoc excludes double_dot names *)
 Theorem C15_double_dot_diverges :
   go_resolve ex_U [[77]%N] [46;46;97;46;120]%N true = GDesc [97;46;120]%N KMessage /\
   Spec.lookup ex_U (relative_to ex_U [[77]%N] [102]%N) [46;46;97;46;120]%N Spec.LookupTypes = Spec.SNone.
 Proof. exact double_dot_diverges_lemma. Qed.
 Print Assumptions C15_double_dot_diverges.
 
-(* non-vacuity: a well-formed universe with a scope; the guard holds for a qualified and fails for
-   the unqualified spelling; the repaired algorithm finds the message *)
+(* non-vacuity: package a.b with extension x and message M, imported package a with message x.
+   The universe is well-formed and M is a scope; inside M the type reference x is a.x (the old
+   code answered with the extension a.b.x), an extendee reference x at file level is a.b.x *)
 Example C15_nonvacuous :
   wf_universe ex_U = true /\ scope_ok ex_U [[77]%N] [102]%N = true /\
-  guard ex_U [97;46;120]%N Spec.LookupTypes = true /\ guard ex_U [120]%N Spec.LookupTypes = false /\
+  go_resolve ex_U [[77]%N] [120]%N true = GDesc [97;46;120]%N KMessage /\
   go_resolve ex_U [[77]%N] [97;46;120]%N true = GDesc [97;46;120]%N KMessage /\
-  go_resolve_fixed ex_U [[77]%N] [120]%N true = GDesc [97;46;120]%N KMessage /\
+  go_resolve ex_U [] [120]%N false = GDesc [97;46;98;46;120]%N KExtension /\
+  go_resolve_old ex_U [[77]%N] [120]%N true = GDesc [97;46;98;46;120]%N KExtension /\
   create_prefix_list [97;46;98]%N = [[97;46;98]%N; [97]%N; []].
 Proof. exact resolve_example. Qed.
